@@ -194,7 +194,14 @@ func (w *World) VerifyFunc(fn *ssa.Function, fc *FuncContract, timeoutS int) *Fu
 		rep.PkgPath = fn.Pkg.Pkg.Path()
 	}
 	t0 := time.Now()
-	if err := e.Encode(); err != nil {
+	if err := func() (err error) {
+		defer func() {
+			if r := recover(); r != nil {
+				err = fmt.Errorf("%s: internal error while encoding: %v", e.fnLabel, r)
+			}
+		}()
+		return e.Encode()
+	}(); err != nil {
 		rep.Err = err
 		return rep
 	}
